@@ -1,11 +1,12 @@
 """C05 storage physics."""
+import re
 import numpy as np
 import common as C
 import gen
 import modelspec as M
 from props import util
 
-THEOREMS = ['C05_storage_physics', 'C05_level_within_size_at_every_step', 'C05_builder_refuses_end_level_outside_size', 'C05_level_rows', 'C05_no_simultaneous']
+THEOREMS = ['C05_storage_physics', 'C05_level_within_size_at_every_step', 'C05_builder_refuses_end_level_outside_size', 'C05_level_rows', 'C05_time_blocks', 'C05_no_simultaneous']
 CFG = {'p_coarse': 0.2, 'p_periodic': 0.0, 'T': (3, 9), 'n_assets': (1, 3), 'nodes': (1, 3), 'p_window': 0.4, 'p_market': 1.0,
        'p_inflow': 0.5, 'p_no_simult': 0.25, 'p_max_store': 0.2, 'p_storage_price': 0.15, 'p_blocks': 0.15,
        'kinds': {'Storage': 6, 'Transport': 1, 'SimpleContract': 1}}
@@ -154,6 +155,7 @@ def run(ctx):
     parts = C.run_impl('assets', specs)
     exprs, owners = [], []
     lexprs, lowners = [], []
+    bexprs, bowners = [], []
     for sp, o, pa in zip(specs, res, parts):
         ctx.count('status:' + str(o.get('status')))
         dt = step_lengths(sp['grid'])
@@ -173,7 +175,22 @@ def run(ctx):
                 if a.get(k):
                     ctx.count('storage:' + k)
             if a.get('block_size'):
-                ctx.count('storage:block_size (rows not modelled; implementation oracle only)')
+                # level rows of the blocks against StorageBlocks.st_block_rows (block sizes of fixed duration, no MIP option); the other
+                # parts of the problem do not depend on the blocks
+                m_ = re.fullmatch(r'(\d+)(h|min)', a['block_size'])
+                if m_ and r['status'] == 'ok' and not a.get('no_simult_in_out') and a.get('max_store_duration') is None and not a.get('freq'):
+                    tz = sp['grid'].get('tz')
+                    term = M.asset_term(a, sp, G)
+                    rg = M.rgrid_term(sp['grid'], a, G)
+                    spt = term[term.index('(Build_storage_p'):term.rindex(')') - len(M.periodic_term(sp['grid'], a)) - 1]
+                    s_ = M.inst(a['start'], tz) if a.get('start') else M.inst(sp['grid']['start'], tz)
+                    e_ = M.inst(a['end'], tz) if a.get('end') else M.inst(sp['grid']['end'], tz)
+                    B_ = int(m_.group(1)) * (3600 if m_.group(2) == 'h' else 60)
+                    bexprs.append('(c05_block_case %s %s %s %s %s %s)' % (rg, spt, C.z(s_), C.z(e_), C.z(B_), C.lp(r['problem'])))
+                    bowners.append((sp, a))
+                    ctx.count('storage:block_size (level rows compared with StorageBlocks.st_block_rows)')
+                else:
+                    ctx.count('storage:block_size (rows not modelled; implementation oracle only)')
                 continue
             ok = r['status'] == 'ok'
             P = C.lp(r['problem']) if ok else '(Build_lp [] [] [] [])'
@@ -197,6 +214,15 @@ def run(ctx):
             if not ok:
                 ctx.cov['correspondence']['disagreements'] += 1
                 ctx.broken('correspondence-broken', {'spec': sp, 'asset': a, 'theorem_or_correspondence': 'Storage.setup_optim_problem vs Assets.storage: ' + nm})
+    if bexprs:
+        bv = C.run_coq_exprs('C05b', IMPORTS + ' StorageBlocks', bexprs, chunk=8)
+        for (sp, a), v in zip(bowners, bv):
+            ctx.cov['correspondence']['cases'] += 1
+            ctx.cov['correspondence']['components_compared'] += 2
+            for nm, ok in zip(['level rows of the time blocks', 'block boundaries form blocks (hypothesis of C05_time_blocks)'], v):
+                if not ok:
+                    ctx.cov['correspondence']['disagreements'] += 1
+                    ctx.broken('correspondence-broken', {'spec': sp, 'asset': a, 'theorem_or_correspondence': 'Storage.setup_optim_problem vs StorageBlocks.st_block_rows: ' + nm})
     if lexprs:
         lv = C.run_coq_exprs('C05l', IMPORTS, lexprs, chunk=10)
         for (sp, a), ok in zip(lowners, lv):
